@@ -132,6 +132,13 @@ macro_rules! adapter {
             pub fn mapper_plain(text: &[u8]) -> Mapper<'_> {
                 pg::ProguardMapper::new(pg::ProguardMapping::new(text))
             }
+            /// The `From<&str>` / `From<(&str, bool)>` constructors.
+            pub fn mapper_from_str(text: &str, with_params: Option<bool>) -> Mapper<'_> {
+                match with_params {
+                    None => pg::ProguardMapper::from(text),
+                    Some(b) => pg::ProguardMapper::from((text, b)),
+                }
+            }
 
             pub fn write_cache_to<W: Write>(text: &[u8], w: &mut W) -> std::io::Result<()> {
                 pg::ProguardCache::write(&pg::ProguardMapping::new(text), w)
